@@ -67,6 +67,27 @@ CHECKS = {
         "Trusted: the unlimited run as reference (its correctness is C08/C11/C12's business); os.walk listings; horizon 6 h (quick) / 9 h (thorough).",
         "DESIGN.md section 4, C10",
     ),
+    "C15": (
+        "exploration",
+        "bounded-exhaustive enumeration of all ordered layout pairs (order x axes_reversed x per-axis direction) in 1-3 D for cell/point data and uniform/rectilinear/ESRI grids against coordinate arithmetic, including delivery over a real Output->Input link",
+        "Finite product enumerated completely: canonical round trip and xyz-increasing indexing, compatible_with against equality of independently computed data-point sets (plus different geometry/location/dimension/class), and on a real link (with/without time axis, plain/masked) every value and mask bit must arrive at the same physical coordinate.",
+        "Trusted: the arithmetic coordinate reference shared with C14; lengths (4,), (3,4), (2,3,4).",
+        "DESIGN.md section 4, C15",
+    ),
+    "C17": (
+        "exploration",
+        "bounded-exhaustive enumeration of all ordered unit pairs of a 71-unit hand-written catalogue under three memo regimes plus all query sequences of length <=3 over a sub-catalogue, against a reference table that does not use pint",
+        "Every ordered pair is queried through compatible_units, equivalent_units, to_units, prepare and a real link, cold / after the reversed pair / fully warm; every query sequence up to length 3 from a cold memo must give the reference answer at every position, so no answer depends on what was asked before.",
+        "Trusted: the hand-written table (exponent vectors, exact rational factors, offsets); rtol 1e-9; angles dimensionless.",
+        "DESIGN.md section 4, C17",
+    ),
+    "C18": (
+        "exploration",
+        "bounded-exhaustive enumeration: all shapes <=6/8 elements x orders x ALL masks for the compression round trip, all payload forms x layouts for prepare under a fixed mask, all 7x7 mask specification pairs x layout pairs through a real exchange_info judged by physical mask equality",
+        "Finite products enumerated completely on the real helpers and slots; the acceptance oracle compares the sets of masked physical coordinates computed from the grids' coordinate arithmetic.",
+        "Trusted: coordinate reference of C14; producer kinds the statement does not classify are accepted either way.",
+        "DESIGN.md section 4, C18",
+    ),
     "C20": (
         "model_checking",
         A_TECH + "; plus exhaustive event sequences on a static output and an exhaustive product for WeightedSum",
